@@ -58,6 +58,10 @@ PROPS = {
                 partial=["event sequences are observed on real runs (custom in-memory transports, TCP) and judged by the executable spec Spec.evLegal; the transition-system theorems are about the model"]),
     "C11": dict(lean=["Mav.Props.C11"], groups=[("C11", sizes(60, 3000))],
                 trusted=["Go channel/select/goroutine semantics as modelled by Mav/Model/Node.lean; in-memory transports of the harness record write calls faithfully"]),
+    "C12": dict(lean=["Mav.Props.C12"], groups=[("C12", sizes(40, 1200))],
+                crash_signatures=[("crash:pion-udp-waitgroup", r"sync: (WaitGroup is reused|WaitGroup misuse|negative WaitGroup).*pion/transport/v2/udp")],
+                trusted=["Go channel/select/goroutine semantics as modelled by Mav/Model/Node.lean; OS socket release observed by re-binding; goroutine census by runtime.Stack filtered to gomavlib / pion frames"],
+                partial=["termination of Close is a liveness property under a fair scheduler: the model theorems give the safety half (no send on the closed event channel, everything ended when it is closed, no dispatch after the loop); that Close returns within a bound is observed on real runs, not proved"]),
     "C13": dict(lean=["Mav.Props.C13"], groups=[("C13", sizes(30, 1500))],
                 trusted=["Go channel/select/goroutine semantics as modelled by Mav/Model/Node.lean"]),
     "C17": dict(lean=["Mav.Props.C17"], groups=[("C17", sizes(1, 1))], table_crosscheck=True, preamble=dialects_preamble,
